@@ -70,6 +70,13 @@ def _max(I, *args, **kw):
     return _minmax(I, args, False)
 
 
+@stub("builtins.divmod")
+def _divmod(I, a, b):
+    import ast as _ast
+
+    return (I.binop(_ast.FloorDiv(), a, b), I.binop(_ast.Mod(), a, b))
+
+
 @stub("builtins.abs")
 def _abs(I, x):
     if not is_z3(x):
